@@ -137,7 +137,7 @@ func c2Entry(c *Ctx) {
 			if cl.Parent() == fn || Eligible(cl.Parent()) {
 				sites = append(sites, emitSite{name: "close-namespaces", instr: cl, want: []string{}})
 			}
-		case "Write":
+		case "Write", "AppendBytes":
 			if len(args) == 2 && Desc(args[1]) == "Bytes("+fn.Params[0].Name()+".buf)" {
 				sites = append(sites, emitSite{name: "context", instr: cl, want: []string{"Len(" + fn.Params[0].Name() + ".buf) > 0"}})
 			}
@@ -160,6 +160,7 @@ func c2Entry(c *Ctx) {
 		var got []string
 		Bound(func() {
 			for _, a := range AtomStrings(Guards(s.instr)) {
+				a = strings.ReplaceAll(a, "len(Bytes("+fn.Params[0].Name()+".buf))", "Len("+fn.Params[0].Name()+".buf)")
 				got = append(got, normCfg(a))
 			}
 		})
